@@ -5,6 +5,7 @@ import os
 import re
 
 from .. import dataflow as df
+from .. import extract
 from .. import wire
 from ..facts import Site, op_local, short, const_int
 
@@ -421,6 +422,28 @@ def run(ctx):
     ctx.alias = {"C15.c": "C12.f"}
     ctx.run_clause("C12.f", C15.c15c)
     ctx.alias = {}
+    def varint_witness(c):
+        """E4: rustc const-evaluates the crate's own (private, const) varint and zig-zag helpers on every power-of-two
+        boundary; reached through the cfg(qbice_verif) hook `postcard::verif_hooks`."""
+        from .. import witness
+        if c.key_prefix:
+            return
+        if not os.path.exists(os.path.join(extract.repo_root(), "crates", "serialize", "src", "postcard.rs")) or \
+                "verif_hooks" not in open(os.path.join(extract.repo_root(), "crates", "serialize", "src", "postcard.rs")).read():
+            o = c.ob("C12.g", "witness/hook-present", "E4", "the cfg(qbice_verif) hook postcard::verif_hooks exists")
+            c.fail(o, "(program)", "anchor missing: qbice_serialize::postcard::verif_hooks (cfg(qbice_verif)) — the varint witness cannot be built; failing closed")
+            return
+        n, failures = witness.run_varint()
+        o1 = c.ob("C12.g", "witness/varint-encoder-is-leb128", "E4",
+                  "encode_varint_u{16,32,64,128} emit the minimal LEB128 form on every 2^k-1, 2^k, 2^k+1 and the extremes — const-evaluated by rustc")
+        o2 = c.ob("C12.g", "witness/zigzag-is-the-standard-bijection", "E4",
+                  "zigzag_encode maps 0,-1,1,-2.. to 0,1,2,3.. and zigzag_decode inverts it on every +-2^k, +-(2^k+-1), MIN, MAX — const-evaluated by rustc")
+        o1.sites = o2.sites = n // 2
+        if n < 1500:
+            c.fail(o1, "(program)", "the varint witness shrank to %d assertions" % n)
+        for kind, what in failures:
+            c.fail(o2 if kind.startswith("zigzag") else o1, "crates/serialize/src/postcard.rs (const-evaluated)", what)
+    ctx.run_clause("C12.g", varint_witness)
     if ctx.tier == "thorough":
         rocks = ctx.program("rocks")
         ctx.run_clause("C12.a", lambda c: c12a(c, [rocks], "workspace"))
